@@ -29,19 +29,19 @@ checks = [
      BASE_NOTE, SYMX),
  chk("C05", "model_checking",
      "Reference paths are classified by the solver (halted / proved divergent through a state recurrence decided under the path condition); on divergent paths every interpreter/level must stay unfinished under budgets 64 and 256 with events a prefix of the periodic canonical stream, on halted paths the unlimited call must return.",
-     BASE_NOTE + "; non-return of the subject only up to budget 256; interpreters only (no JIT)", SYMX + ", solver-proved divergence of the reference"),
+     BASE_NOTE + "; non-return of the subject only up to budget 256", SYMX + ", solver-proved divergence of the reference"),
  chk("C06", "model_checking",
      "The real interpreters run symbolically in checked mode while every alloc_zeroed block (tape, interpreter context and temporaries) is placed flush against PROT_NONE pages (left and right placements); any out-of-allocation access on any explored path faults, is replayed natively under the same allocator and reported; event equality with the reference establishes that cells keep their values across reallocations.",
-     BASE_NOTE + "; interpreters only (no JIT); the step lemmas with fully symbolic 64-bit geometry (DESIGN E5) are not built", SYMX + " under a guard-page allocator"),
+     BASE_NOTE + "; JIT accesses are bounds-checked exactly in the x86 model; geometry lemmas for the Memory functions are translated from MIR and decided for all 64-bit geometries within the stated preconditions (cvc5 integer encoding, cross-checked by bit-blasting solvers when it does not answer)", SYMX + " under a guard-page allocator; MIR-to-SMT lemmas for the tape geometry"),
  chk("C07", "model_checking",
      "execute_limited of every interpreter/level runs symbolically for every listed budget and 2^62 on every explored path: finished implies the complete canonical event sequence, interrupted implies a prefix, 2^62 implies finished on halted paths, and no budget reports finished on proved-divergent paths; a limited run exceeding the operation cap is replayed under a wall clock.",
-     BASE_NOTE + "; budgets enumerated (listed budgets + 2^62); interpreters only (no JIT)", SYMX),
+     BASE_NOTE + "; budgets enumerated (listed budgets + 2^62)", SYMX),
  chk("C08", "fault_enumeration",
      "The failing event (refused output as Err or Ok(0), failing input request) is a free decision of the symbolic exploration at each of the first K events of every explored path, plus the configurations input absent / output absent; events up to the fault must equal the reference's, none may follow, the call returns Ok without panic.",
-     BASE_NOTE + "; interpreters only (no JIT)", SYMX + ", fault position as a solver-visible free decision"),
+     BASE_NOTE + "; the baseline JIT is covered through the x86 model", SYMX + ", fault position as a solver-visible free decision"),
  chk("C10", "model_checking",
      "execute_unsafe of the bytecode interpreter runs symbolically on a context pre-grown to the canonical excursion of each path plus the program length, the region fenced on both sides by PROT_NONE pages; events must equal the reference's and no access may leave the region.",
-     BASE_NOTE + "; bytecode interpreter only (the JIT's static mode is not covered)", SYMX + " under a guard-page allocator"),
+     BASE_NOTE + "; the JIT's static code is bounds-checked exactly in the x86 model", SYMX + " under a guard-page allocator"),
  chk("C13", "model_checking",
      "Claimed part only: every executor build (parse, optimize, translate, threaded code) on the corpus runs under catch_unwind and each executor is executed twice on fresh contexts on every explored path, the two symbolic event logs must be identical terms.",
      BASE_NOTE + "; NOT claimed: independence from hash seeds, cross-process determinism, the complexity clause", SYMX),
